@@ -537,6 +537,9 @@ def run(ctx):
         work.append(("framesplits", {"msgs": [MSG_EVENT, MSG_CHUNK2, MSG_SMALL], "triples": 2, "max_uniform": 400}))
         work.append(("framesplits", {"msgs": [dict(MSG_CHUNK2, body=bytes(range(256)) * 9, chunks=[1024, 1, 1023, 256])], "max_uniform": 1024}))
     work.append(("bigreads", {"sizes_plain": [90000, 150000], "read_sizes": [1024, 16384, 65535, 65536, 65553, 65554, 131072, 262144]}))
+    # well beyond the largest single read of the event loop (256 KiB), in reads that never end on a block boundary: the buffer never runs empty
+    work.append(("bigreads", {"sizes_plain": [200000, 150000, 3000], "read_sizes": [1500, 1043, 4096, 65535, 262143, 262144]}))
+    work.append(("bigreads", {"sizes_plain": [600000], "read_sizes": [1041, 100000, 262144, 300000]}))
     if not quick:
         work.append(("bigreads", {"sizes_plain": [70000, 300000, 65000], "read_sizes": [1, 7, 1042, 4096, 65536, 100000, 262144, 524288]}))
     for gap in (31.0, 3600.0) if quick else (1.0, 29.0, 31.0, 61.0, 3600.0, 1e6):
